@@ -644,6 +644,12 @@ def run(ctx):
     operators(ctx, lookup_in([ctx.module('fuzzy')]))
     dispatch(ctx)
     bfuzz(ctx)
+    from props import C13_fuzzy
+    C13_fuzzy.run(ctx)
+    rep.floor('F5a', 1)
+    rep.floor('F5b', 1)
+    rep.floor('F5c', 1)
+    rep.floor('F5d', 1)
     rep.floor('F2', 10)
     rep.floor('F2s', 5)
     rep.floor('F3', 9)
